@@ -66,8 +66,10 @@ pub fn create_quic_client(tls: &TlsClientConfig, enable_bbr: bool) -> Result<Cli
 
     let mut transport_config = quinn::TransportConfig::default();
     transport_config.max_concurrent_uni_streams(0u8.into());
-    transport_config.keep_alive_interval(Some(Duration::from_secs(30)));
-    transport_config.max_idle_timeout(Some(Duration::from_secs(3600).try_into().unwrap()));
+    // the connection to the upstream is shared by all requests: a peer that vanished without closing it
+    // (crash, restart) has to be noticed soon, or every request keeps waiting on the dead connection
+    transport_config.keep_alive_interval(Some(Duration::from_secs(10)));
+    transport_config.max_idle_timeout(Some(Duration::from_secs(30).try_into().unwrap()));
     if enable_bbr {
         transport_config.congestion_controller_factory(Arc::new(congestion::BbrConfig::default()));
     }
